@@ -117,6 +117,17 @@ def ob_save_pinned():
             raise Refuted(f"in-memory mode stores `{arg}`", signature="save:mem", replay=dict(confirmed=False))
         if not mem and arg != "path":
             raise Refuted(f"folder mode stores `{arg}`", signature="save:path", replay=dict(confirmed=False))
+    # the iteration remembers the mesh the simulation is ON (not the newest mesh of the history)
+    ok_idx = False
+    for node in ast.walk(fn.node):
+        if isinstance(node, ast.Assign) and len(node.targets) == 1 and isinstance(node.targets[0], ast.Subscript) \
+                and isinstance(node.targets[0].slice, ast.Constant) and node.targets[0].slice.value == "indexMesh":
+            ok_idx = ast.unparse(node.value) == "self.__indexMesh"
+            if not ok_idx:
+                raise Refuted(f"Save_Iter stores `{ast.unparse(node.value)}` as the iteration's mesh index, expected the current mesh index self.__indexMesh",
+                              signature="save:indexMesh", replay=_replay_multimesh())
+    if not ok_idx:
+        raise Refuted("Save_Iter does not record the mesh index of the iteration", signature="save:indexMesh", replay=_replay_multimesh())
     src = ast.unparse(fn.node)
     if "iter.copy()" not in src:
         raise Refuted("Save_Iter does not copy the caller's dict", signature="save:copy", replay=dict(confirmed=False))
@@ -330,6 +341,57 @@ def ob_roundtrip(sim, mode, dynamic):
         shutil.rmtree(tmp, ignore_errors=True)
 
 
+def _multimesh_history():
+    """iter0 on mesh A, iter1 on mesh B, back to iter0, solve + save iter2 (on A), then restore 1, 2, 0, 2."""
+    from EasyFEA import Models, Simulations, SolverType
+    s = _mk("Elastic")
+    meshA = s.mesh
+    coords, connect = patches.star_patch("QUAD4", affine=([[1.1, 0.2], [0.1, 0.9]], [0.3, 0.0]))
+    meshB = patches.real_mesh("QUAD4", coords, connect)
+    snaps = {}
+
+    def step(k, load):
+        _bc(s, "Elastic", load)
+        s.Solve()
+        s.Save_Iter()
+        snaps[k] = dict(state=_state(s), mesh=np.asarray(s.mesh.coord).copy(), sxx=np.asarray(s.Result("Sxx", nodeValues=False)).copy())
+    step(0, 0)
+    s.mesh = meshB
+    step(1, 1)
+    s.Set_Iter(0)
+    step(2, 3)
+    for i in (1, 2, 0, 2):
+        s.Set_Iter(i)
+        if not np.array_equal(np.asarray(s.mesh.coord), snaps[i]["mesh"]):
+            return False, f"after Set_Iter({i}) the simulation is on another mesh than the one iteration {i} was saved on"
+        ok, why = _same(snaps[i]["state"], _state(s))
+        if not ok:
+            return False, f"after Set_Iter({i}) the state differs ({why})"
+        if not np.allclose(np.asarray(s.Result("Sxx", nodeValues=False)), snaps[i]["sxx"], rtol=1e-12, atol=1e-14):
+            return False, f"Result('Sxx') for iteration {i} differs from the value obtained at save time"
+    return True, ""
+
+
+def _replay_multimesh():
+    try:
+        ok, why = _multimesh_history()
+        return dict(confirmed=not ok, detail=why)
+    except Exception as e:
+        return dict(confirmed=True, raised=repr(e)[:300])
+
+
+def ob_multimesh():
+    try:
+        ok, why = _multimesh_history()
+    except Exception as ex:
+        raise Refuted(f"multi-mesh history raises {type(ex).__name__}: {ex}", signature="multimesh:raises", cex=dict(history="A:solve,save; mesh=B; solve,save; Set_Iter(0); solve,save; Set_Iter(1,2,0,2)"),
+                      replay=dict(confirmed=True))
+    if not ok:
+        raise Refuted(f"several meshes in one history: {why}", cex=dict(history="A:solve,save; mesh=B; solve,save; Set_Iter(0); solve,save; Set_Iter(1,2,0,2)"), signature="multimesh",
+                      replay=dict(confirmed=True, detail=why))
+    return Verdict(DISCHARGED, backend="native run (exact equality)")
+
+
 def ob_saveload():
     from EasyFEA import Simulations
     tmp = tempfile.mkdtemp(prefix="vt_c15_")
@@ -376,6 +438,8 @@ def build(tier, seed):
         if DYNAMIC[sim]:
             obs.append(Ob(f"C15.roundtrip.{sim}.dynamic", ob_roundtrip, (sim, "memory", True), "X", (f"{SIMS[sim]}::{sim}.Save_Iter", f"{SIMS[sim]}::{sim}.Set_Iter"),
                           bound="3 time steps (Newmark / theta scheme), in-memory history", clause="velocity and acceleration are restored with the displacement", timeout=300))
+    obs.append(Ob("C15.multimesh.elastic", ob_multimesh, (), "X", (f"{SIMU}::_Simu.Save_Iter", f"{SIMU}::_Simu.Set_Iter", f"{SIMU}::_Simu.__Update_mesh"),
+                  bound="one history with two meshes and a restart from an older iteration", clause="each iteration is restored on the mesh it was saved on", timeout=300))
     obs.append(Ob("C15.saveload.elastic", ob_saveload, (), "X", (f"{SIMU}::_Simu.Save", f"{SIMU}::Load_Simu"), bound="one Elastic simulation, 2 iterations",
                   clause="Save / Load_Simu round trip preserves mesh, history length and stored fields", timeout=300))
     obs.append(Ob("canary.keys.Elastic", ob_keys, ("Elastic", True), "E", expect=REFUTED))
@@ -393,5 +457,5 @@ def build(tier, seed):
         assumptions=["histories bounded to 3 steps per simulation type, one mesh per history (several meshes in one history not covered)", "MPI_SIZE == 1"],
         functions=functions,
         dropped=["E-tier reads the AST only"],
-        not_attempted=["WeakForms / DIC simulations in the dynamic histories", "several meshes in one history", "Mesh.Save / Load_Mesh"],
+        not_attempted=["WeakForms / DIC simulations in the dynamic histories", "Mesh.Save / Load_Mesh"],
     )
